@@ -561,7 +561,7 @@ def _suffix_from_params(t, rec="TGswParams"):
     return None
 
 
-def check_fft_key(chk, v):
+def check_fft_key(chk, v, rule="R8"):
     from sa.pipeline import AnalysisBroken
     vn = v.name
     f = v.fn("init_LweBootstrappingKeyFFT")
@@ -575,7 +575,7 @@ def check_fft_key(chk, v):
     calls = lambda nm: [p for p in ps if p["kind"] == "call" and p["name"] == nm]
     nk, cp, na, cv = calls("new_LweKeySwitchKey"), calls("lweCopy"), calls("new_TGswSampleFFT_array"), calls("tGswToFFTConvert")
     gk = [p for p in gps if p["kind"] == "call" and p["name"] == "new_LweKeySwitchKey"]
-    if not (len(nk) == len(cp) == len(na) == len(cv) == 1 and len(gk) == 1 and len(cp[0]["loops"]) == 3 and len(cv[0]["loops"]) == 1):
+    if not (len(nk) == len(na) == 1 and len(gk) == 1 and cp and cv):
         chk.broken("init_LweBootstrappingKeyFFT: shape not recognised (%d/%d/%d/%d calls)" % (len(nk), len(cp), len(na), len(cv)))
     problems = []
     a = nk[0]["args"]
@@ -593,30 +593,69 @@ def check_fft_key(chk, v):
                                 sym.show(a[0]), sym.show(gk[0]["args"][0])))
     if a[1] != sym.arrow(ksrc, "t") or a[2] != sym.arrow(ksrc, "basebit"):
         problems.append("copy allocated with (t, basebit) = (%s, %s), the source key has (ks->t, ks->basebit)" % (sym.show(a[1]), sym.show(a[2])))
-    il, jl, pl = cp[0]["loops"]
-    rng = [(l["lo"], l["cmp"], l["hi"]) for l in (il, jl, pl)]
-    want_rng = [(ZERO, "<", a[0]), (ZERO, "<", sym.arrow(ksrc, "t")), (ZERO, "<", sym.arrow(ksrc, "base"))]
-    if rng != want_rng:
-        problems.append("row copy runs over %s, the allocated key has %s x t x base rows" % (
-            [(sym.show(x[0]), sym.show(x[2])) for x in rng], sym.show(a[0])))
-    dst, src = cp[0]["args"][0], cp[0]["args"][1]
-    i, j, p_ = il["var"], jl["var"], pl["var"]
-    want_src = sym.addr(sym.idx(sym.idx(sym.idx(sym.arrow(ksrc, "ks"), i), j), p_))
-    want_dst = sym.addr(sym.idx(sym.idx(sym.idx(sym.arrow(nk[0]["eff"]["ret"], "ks"), i), j), p_))
-    if src != want_src or dst != want_dst:
-        problems.append("row copy is %s <- %s, expected ks[i][j][p] <- bk->ks->ks[i][j][p]" % (sym.show(dst)[:60], sym.show(src)[:60]))
+    # every cell (i, j, p) of the source key is copied to the same cell of the new key, once: the index chains of both pointer
+    # arguments of all lweCopy calls are enumerated over their loop nests for small (n_ext, t, base)
+    from sa import concrete
+    import itertools as _it
+
+    def chain(t):
+        """&A[i][j][p] -> (A, [i, j, p])"""
+        base, off = sym.ptr_split(t)
+        ix = [off]
+        while base[0] == "idx":
+            ix.append(base[2])
+            base = base[1]
+        return base, ix[::-1]
+    want_sb, want_db = sym.arrow(ksrc, "ks"), sym.arrow(nk[0]["eff"]["ret"], "ks")
+    okc = True
+    for c_ in cp:
+        (db, di), (sb, si) = chain(c_["args"][0]), chain(c_["args"][1])
+        if (db, len(di)) != (want_db, 3) or (sb, len(si)) != (want_sb, 3):
+            if sym.root_of(db) not in (sym.root_of(want_db), bk) or sym.root_of(sb) != bk:
+                chk.broken("init_LweBootstrappingKeyFFT: lweCopy at line %s on %s <- %s is not resolved to the two keys" % (c_["line"], sym.show(c_["args"][0])[:60], sym.show(c_["args"][1])[:60]))
+            problems.append("row copy is %s <- %s, expected ks[i][j][p] <- bk->ks->ks[i][j][p]" % (sym.show(c_["args"][0])[:60], sym.show(c_["args"][1])[:60]))
+            okc = False
+    if okc and n_ok:
+        for nv, tv, bv in _it.product((1, 2), (1, 2), (2, 4)):          # base = 2^basebit >= 2
+            env0 = {a[0]: nv, want_n: nv, sym.arrow(ksrc, "t"): tv, sym.arrow(ksrc, "base"): bv}
+            try:
+                seen = concrete.visited_tuples(cp, lambda c_: tuple(chain(c_["args"][0])[1]) + tuple(chain(c_["args"][1])[1]), env0)
+            except concrete.NotEvaluable as e:
+                chk.broken("init_LweBootstrappingKeyFFT: %s" % e)
+            bad_ = [x for x in seen if x[:3] != x[3:]]
+            if bad_:
+                problems.append("with (n_ext, t, base) = (%d, %d, %d): cell %s of the copy is filled from cell %s of the source" % (nv, tv, bv, bad_[0][:3], bad_[0][3:]))
+                break
+            if sorted(x[:3] for x in seen) != sorted(_it.product(range(nv), range(tv), range(bv))):
+                missing = sorted(set(_it.product(range(nv), range(tv), range(bv))) - {x[:3] for x in seen})
+                problems.append("with (n_ext, t, base) = (%d, %d, %d): %d cells copied for %d rows%s" % (
+                    nv, tv, bv, len(seen), nv * tv * bv, "; cell %s is never copied" % (missing[0],) if missing else " (some twice)"))
+                break
     nin = sym.arrow(sym.arrow(bk, "in_out_params"), "n")
     if na[0]["args"][0] != nin:
         problems.append("%s FFT rows allocated, the key has in_out_params->n" % sym.show(na[0]["args"][0]))
-    cl = cv[0]["loops"][0]
-    if not summ.visits(cl, ZERO, nin):
-        problems.append("conversion loop covers [%s,%s), not [0, n)" % (sym.show(cl["lo"]), sym.show(cl["hi"])))
-    if cv[0]["args"][0] != sym.addr(sym.idx(na[0]["eff"]["ret"], cl["var"])) or cv[0]["args"][1] != sym.addr(sym.idx(sym.arrow(bk, "bk"), cl["var"])):
-        problems.append("conversion is %s <- %s, expected bkFFT[i] <- bk->bk[i]" % (sym.show(cv[0]["args"][0])[:50], sym.show(cv[0]["args"][1])[:50]))
-    chk.require(not problems, "R8", key, where=f.where,
+    okv = True
+    for c_ in cv:
+        (db, _d), (sb, _s) = sym.ptr_split(c_["args"][0]), sym.ptr_split(c_["args"][1])
+        if db != na[0]["eff"]["ret"] or sb != sym.arrow(bk, "bk"):
+            if sym.root_of(sb) != bk:
+                chk.broken("init_LweBootstrappingKeyFFT: conversion at line %s is not resolved to the key" % c_["line"])
+            problems.append("conversion is %s <- %s, expected bkFFT[i] <- bk->bk[i]" % (sym.show(c_["args"][0])[:50], sym.show(c_["args"][1])[:50]))
+            okv = False
+    if okv:
+        for nv in (1, 2, 3):
+            try:
+                seen = concrete.visited_tuples(cv, lambda c_: (sym.ptr_split(c_["args"][0])[1], sym.ptr_split(c_["args"][1])[1]), {nin: nv})
+            except concrete.NotEvaluable as e:
+                chk.broken("init_LweBootstrappingKeyFFT: %s" % e)
+            if any(x != y for x, y in seen) or sorted(x for x, _ in seen) != list(range(nv)):
+                problems.append("with n = %d the rows converted are %s (destination, source); expected every i < n once, bkFFT[i] <- bk->bk[i]" % (nv, seen[:4]))
+                break
+    chk.require(not problems, rule, key, where=f.where,
                 ok="new_LweKeySwitchKey(extracted n, ks->t, ks->basebit); rows [0,n_ext) x [0,t) x [0,base) copied index for index; n rows converted",
                 bad="; ".join(problems)[:600], variant=vn)
-    chk.vcount(vn, "R8.fft_key_constructors")
+    if rule == "R8":
+        chk.vcount(vn, "R8.fft_key_constructors")
 
 
 def _chain(root, fields):
